@@ -676,7 +676,18 @@ impl Callbacks for Cb {
                 DefKind::Const { .. } | DefKind::AssocConst { .. } => {
                     let body = tcx.mir_for_ctfe(did);
                     let id = cx.path(did);
-                    bodies.push(cx.body_json(id, did, "Const", body, None));
+                    bodies.push(cx.body_json(id.clone(), did, "Const", body, None));
+                    // constant arrays behind a reference (`const T: &[f64] = &[..]`) live in a promoted body
+                    let promoted = tcx.promoted_mir(did);
+                    for (pi, pb) in promoted.iter_enumerated() {
+                        bodies.push(cx.body_json(
+                            format!("{}::promoted[{}]", id, pi.index()),
+                            did,
+                            "Promoted",
+                            pb,
+                            Some(id.clone()),
+                        ));
+                    }
                 }
                 _ => {}
             }
